@@ -295,6 +295,21 @@ def r3_ordering(chk, rule='C08.R3'):
             else:
                 chk.ob(rule, key + ' other-use', in_debug_call(n), where(r.mod, n),
                        'unexpected use of the component list: %s' % norm(par)[:60])
+    # each add* method appends everything it is given, in the order given, to its own list and returns the compiler
+    for mname, attr in (('addSources', '_sources'), ('addSearchers', '_searchers'), ('addBorrowers', '_borrowers')):
+        o, fn = ci.find_method(mname)
+        if fn is None or fn.args.vararg is None:
+            chk.ob(rule, 'MibCompiler.%s/signature' % mname, False, where(r.mod, ci.node), 'add method missing or without *args')
+            continue
+        va = fn.args.vararg.arg
+        ext = [st for st in fn.body if isinstance(st, ast.Expr) and isinstance(st.value, ast.Call) and
+               common.is_self_attr(getattr(st.value.func, 'value', None), attr) and
+               getattr(st.value.func, 'attr', '') == 'extend' and [norm(a) for a in st.value.args] == [va]]
+        chk.ob(rule, 'MibCompiler.%s/extends-own-list' % mname, len(ext) == 1, where(r.mod, fn),
+               'self.%s.extend(%s) must be an unconditional statement of %s' % (attr, va, mname))
+        rets = [x for x in walk_no_nested(fn) if isinstance(x, ast.Return)]
+        chk.ob(rule, 'MibCompiler.%s/returns-self' % mname, len(rets) == 1 and rets[0] is fn.body[-1] and
+               norm(rets[0].value) == fn.args.args[0].arg, where(r.mod, fn), 'documented to return the compiler for chaining')
     chk.floor(rule, 9, '3 inits, 3 extends, >=3 loops')
 
 
